@@ -62,6 +62,9 @@ var selectorMap = map[string]repl{
 	"time.AfterFunc":       {"simrt", "AfterFunc"},
 	"time.NewTimer":        {"simrt", "NewTimer"},
 	"time.Timer":           {"simrt", "Timer"},
+	"time.NewTicker":       {"simrt", "NewTicker"},
+	"time.Ticker":          {"simrt", "Ticker"},
+	"time.Tick":            {"simrt", "Tick"},
 	"context.AfterFunc":    {"simrt", "ContextAfterFunc"},
 	"context.WithTimeout":  {"simrt", "WithTimeout"},
 	"context.WithDeadline": {"simrt", "WithDeadline"},
@@ -72,7 +75,6 @@ var selectorMap = map[string]repl{
 
 // Uses that would let real sockets/timers into a run and have no mapping.
 var forbidden = map[string]bool{
-	"time.Tick": true, "time.NewTicker": true,
 	"net.FileListener": true, "net.FileConn": true, "net.ListenIP": true, "net.ListenUnix": true,
 	"net.DialIP": true, "net.DialUnix": true, "net.ListenMulticastUDP": true, "net.ListenConfig": true,
 	"net.LookupAddr": true, "net.LookupCNAME": true, "net.Resolver": true, "net.DefaultResolver": true,
